@@ -126,6 +126,7 @@ func (c *connectionRequest) connect(ctx context.Context) (*connectionResult, err
 			}
 			c.player.handleDisconnectWithReason(result.attemptedConn, reason, false)
 		}
+		verifhook.Point("sw.failed", "player", c.player.profile.Name)
 		c.player.resetInFlightConnection()
 	}
 	return result, err
